@@ -668,12 +668,16 @@ package server
 //@   requires self != nil
 //@   at call checkTimeTimeOut assert C05.sweep.range: arg1 <= arg2 && arg2 == now
 //@   at call checkTimeTimeOut assert C05.sweep.next: self.checkTimeoutTime == i64(now + 1)
+//@   at call checkTimeTimeOut assert C05.sweep.each-second: arg1 == checkTimeoutTime
+//@   loop#4 backedge C05.sweep.each-second: checkTimeoutTime == i64(athead(checkTimeoutTime) + 1)
 //@   modifies all
 
 //@ func (*LockDB).checkExpried
 //@   requires self != nil
 //@   at call checkTimeExpried assert C06.sweep.range: arg1 <= arg2 && arg2 == now
 //@   at call checkTimeExpried assert C06.sweep.next: self.checkExpriedTime == i64(now + 1)
+//@   at call checkTimeExpried assert C06.sweep.each-second: arg1 == checkExpriedTime
+//@   loop#4 backedge C06.sweep.each-second: checkExpriedTime == i64(athead(checkExpriedTime) + 1)
 //@   modifies all
 
 // =====================================================================================================
@@ -1298,6 +1302,21 @@ package server
 //@   ensures C09.pop.refused: implies(!isnil(result), cursor.seq == old(cursor.seq))
 //@   modifies ReplicationBufferQueueCursor.*, E_byte
 
+// C09: a follower that is told its position is unknown to the leader asks again as an EMPTY follower: no position, no
+// resume marker (aofLock) and no received-files mark, so that the answer is followed by a transfer from scratch
+//@ func (*ReplicationClient).sendSyncCommand
+//@   requires self != nil
+//@   at call sendSyncCommand assert C09.resync.from-scratch: self.aofLock == nil && !self.recvedFiles && forall(k, 0, 16, self.currentAofId[k] == 0)
+//@   modifies all
+
+// C09: a follower is resumed only at the record whose WHOLE 16-byte log position (file offset, file index and the record's
+// command time) equals the position it asked for; a position from another history that merely collides in (index, offset)
+// is refused and the follower is resynchronised from scratch
+//@ func (*ReplicationBufferQueue).Search
+//@   requires self != nil && cursor != nil && forallref(it, ReplicationBufferQueueItem, arr(it.buf) != arr(cursor.buf))
+//@   ensures C09.search.exact: implies(isnil(result), cursor.currentItem != nil && forall(k, 0, 16, cursor.currentAofId[k] == aofId[k]) && forall(k, 0, 16, cursor.currentItem.buf[3+k] == aofId[k]) && cursor.seq == cursor.currentItem.seq)
+//@   modifies ReplicationBufferQueueCursor.*, E_byte
+
 //@ func (*ReplicationBufferQueue).Push
 //@   requires self != nil
 //@   requires C09.ring: self.headItem == nil || self.headItem.seq == u64(self.seq - 1)
@@ -1415,6 +1434,13 @@ package server
 //@ func (*ReplicationAckDB).ProcessLeaderPushLock
 //@   requires self != nil && aofLock != nil
 //@   ensures C03.ack.settled-stays,C11.ack.settled-stays: implies(calls(DoAckLock) == 0 && old(aofLock.lock) != nil && old(aofLock.lock.ackCount) == 0xff, old(aofLock.lock).ackCount == 0xff)
+//@   modifies all
+
+// C08/C07: after a restart the log is continued in the NEWEST append file found (the last of the list FindAofFiles returns
+// in replay order): continuing an older one would put new records in front of records that were written before them
+//@ func (*Aof).LoadAndInit
+//@   requires self != nil
+//@   at call ParseUint assert C08.resume.newest,C07.resume.newest: arg0 == appendFiles[len(appendFiles)-1][11:]
 //@   modifies all
 
 // C10/C03: on a follower, a result frame from the leader is handed to the text client only when it answers the
